@@ -125,8 +125,12 @@ class GULP_PairTabulation(PairTabulation_AbstractBase):
 
     :param fp: File object into which data should be written."""
     
+    # Build the complete table first so that nothing is written if evaluating a potential fails part-way.
+    from io import StringIO
+    workfp = StringIO()
     for pot in self.potentials:
-      self._write_pot(pot, fp)
+      self._write_pot(pot, workfp)
+    fp.write(workfp.getvalue())
 
   def _write_pot(self, pot, fp):
     header_template = u"{speciesA} {speciesB} {cutoff}\n"
